@@ -635,3 +635,130 @@ Proof.
   - change (var_of t vTN) with (inject_Z (TN t)). change (var_of t vFN) with (inject_Z (FN t)).
     destruct (Qeq_bool (inject_Z (TN t) + inject_Z (FN t)) 0); reflexivity.
 Qed.
+
+(* ================================================================== invariance (C13) *)
+From Coq Require Import Sorting.Permutation.
+
+Lemma Qleb_compat_l' x p p' : (p == p')%Q -> Qle_bool p x = Qle_bool p' x.
+Proof.
+  intros E. destruct (Qle_bool p x) eqn:A, (Qle_bool p' x) eqn:B; try reflexivity.
+  - apply Qle_bool_iff in A. rewrite E in A. apply Qle_bool_iff in A. congruence.
+  - apply Qle_bool_iff in B. rewrite <- E in B. apply Qle_bool_iff in B. congruence.
+Qed.
+
+(* Permutation of the labelled pairs: every reported row has a counterpart with an equal
+   threshold and the same seven counts (and conversely, Permutation being symmetric). *)
+Lemma truth_space_table_perm thr_actual rnd zero_unfound total_labels rows rows' t :
+  Permutation rows rows' ->
+  In t (truth_space_table thr_actual rnd zero_unfound total_labels rows) ->
+  exists t', In t' (truth_space_table thr_actual rnd zero_unfound total_labels rows') /\
+    (thr t' == thr t)%Q /\ TP t' = TP t /\ FP t' = FP t /\ FN t' = FN t /\ TN t' = TN t /\
+    P t' = P t /\ N t' = N t /\ total t' = total t.
+Proof.
+  intros Hp Ht.
+  destruct (table_threshold_from _ _ _ _ _ t Ht) as (r & Hr & Hthr).
+  destruct (table_row_frame _ _ _ _ _ t Ht) as (Hmin & _).
+  assert (Hr' : In r rows') by (eapply Permutation_in; eauto).
+  rewrite Hthr in Hmin.
+  destruct (table_threshold_complete thr_actual rnd zero_unfound total_labels rows' r Hr' Hmin) as (t' & Ht' & Hq).
+  exists t'. split; [exact Ht'|]. rewrite <- Hthr in Hq. split; [exact Hq|].
+  destruct (table_row_recount _ _ _ _ _ t Ht) as (A1 & A2 & A3 & A4 & A5 & A6 & A7).
+  destruct (table_row_recount _ _ _ _ _ t' Ht') as (B1 & B2 & B3 & B4 & B5 & B6 & B7).
+  assert (Hg : ghosts total_labels rows' = ghosts total_labels rows).
+  { unfold ghosts. destruct total_labels; [|reflexivity]. rewrite (Permutation_length Hp). reflexivity. }
+  assert (Hc : forall c : lrow -> bool -> bool,
+             countZ (fun r0 => c r0 (Qle_bool (thr t') (adj_score rnd zero_unfound r0))) rows'
+             = countZ (fun r0 => c r0 (Qle_bool (thr t) (adj_score rnd zero_unfound r0))) rows).
+  { intros c. rewrite <- (countZ_perm _ _ _ Hp). apply countZ_ext. intros x _.
+    rewrite (Qleb_compat_l' _ _ _ Hq). reflexivity. }
+  pose proof (Hc (fun r0 b => is_pos thr_actual r0 && b)) as C1.
+  pose proof (Hc (fun r0 b => negb (is_pos thr_actual r0) && b)) as C2.
+  pose proof (Hc (fun r0 b => is_pos thr_actual r0 && negb b)) as C3.
+  pose proof (Hc (fun r0 b => negb (is_pos thr_actual r0) && negb b)) as C4.
+  cbv beta in C1, C2, C3, C4.
+  pose proof (countZ_perm (is_pos thr_actual) _ _ Hp) as C5.
+  pose proof (countZ_perm (fun r0 => negb (is_pos thr_actual r0)) _ _ Hp) as C6.
+  pose proof (Permutation_length Hp) as C7.
+  repeat split.
+  - rewrite A1, B1. exact C1.
+  - rewrite A2, B2. exact C2.
+  - rewrite A3, B3. exact C3.
+  - rewrite A4, B4, Hg, C4. reflexivity.
+  - rewrite A5, B5. symmetry. exact C5.
+  - rewrite A6, B6, Hg, C6. reflexivity.
+  - rewrite A7, B7, Hg, C7. reflexivity.
+Qed.
+
+Lemma flat_map_perm_pointwise {A B} (g g' : A -> list B) l :
+  (forall x, Permutation (g x) (g' x)) -> Permutation (flat_map g l) (flat_map g' l).
+Proof. intros H. induction l as [|x t IH]; cbn; [constructor|]. apply Permutation_app; [apply H|exact IH]. Qed.
+
+(* labels-table mode: Permutation of the label rows *)
+Lemma labels_with_predictions_perm scoref foundf recs ls ls' :
+  Permutation ls ls' ->
+  Permutation (labels_with_predictions_from_table scoref foundf recs ls)
+              (labels_with_predictions_from_table scoref foundf recs ls').
+Proof.
+  intros H. unfold labels_with_predictions_from_table, block_from_labels, lower_id_to_left_hand_side.
+  apply Permutation_map. apply flat_map_perm. apply Permutation_map. exact H.
+Qed.
+(* label-column mode: Permutation of the scored pairs *)
+Lemma labels_with_predictions_column_perm nrules preds preds' :
+  Permutation preds preds' ->
+  Permutation (labels_with_predictions_from_column nrules preds) (labels_with_predictions_from_column nrules preds').
+Proof. apply Permutation_map. Qed.
+
+Lemma prediction_errors_perm column_mode inc_fp inc_fn t rows rows' :
+  Permutation rows rows' ->
+  Permutation (prediction_errors column_mode inc_fp inc_fn t rows) (prediction_errors column_mode inc_fp inc_fn t rows').
+Proof. intros H. unfold prediction_errors. apply Permutation_map. apply filter_perm. exact H. Qed.
+
+(* labels-table mode: an order-preserving relabelling of the ids (phi strictly monotone, hence
+   injective) with scores and found flags transported along it leaves the labelled pairs - and
+   therefore the truth table - unchanged *)
+Definition relabel (phi : nat -> nat) (x : label) : label :=
+  {| id_l := phi (id_l x); id_r := phi (id_r x); cms := cms x |}.
+
+Lemma filter_eqb_map phi n (recs : list nat) :
+  (forall a b, phi a = phi b -> a = b) ->
+  filter (Nat.eqb (phi n)) (map phi recs) = map phi (filter (Nat.eqb n) recs).
+Proof.
+  intros Hinj. induction recs as [|a t IH]; [reflexivity|]. cbn.
+  destruct (Nat.eqb_spec n a) as [->|Hne].
+  - rewrite Nat.eqb_refl. cbn. rewrite IH. reflexivity.
+  - destruct (Nat.eqb_spec (phi n) (phi a)) as [E|_]; [apply Hinj in E; contradiction|exact IH].
+Qed.
+
+Lemma relabel_labels_table phi scoref foundf scoref' foundf' recs ls :
+  (forall a b, (a < b)%nat -> (phi a < phi b)%nat) ->
+  (forall a b, scoref' (phi a) (phi b) = scoref a b) ->
+  (forall a b, foundf' (phi a) (phi b) = foundf a b) ->
+  labels_with_predictions_from_table scoref' foundf' (map phi recs) (map (relabel phi) ls)
+  = labels_with_predictions_from_table scoref foundf recs ls.
+Proof.
+  intros Hmono Hs Hf.
+  assert (Hinj : forall a b, phi a = phi b -> a = b).
+  { intros a b E. destruct (Nat.lt_trichotomy a b) as [H|[H|H]]; [apply Hmono in H; lia|exact H|apply Hmono in H; lia]. }
+  assert (Hlt : forall a b, Nat.ltb (phi a) (phi b) = Nat.ltb a b).
+  { intros a b. destruct (Nat.ltb_spec a b) as [H|H].
+    - apply Nat.ltb_lt, Hmono, H.
+    - apply Nat.ltb_ge. destruct (Nat.eq_dec a b) as [->|Hne]; [lia|]. assert (b < a)%nat by lia.
+      apply Hmono in H0. lia. }
+  unfold labels_with_predictions_from_table.
+  assert (L1 : lower_id_to_left_hand_side (map (relabel phi) ls) = map (relabel phi) (lower_id_to_left_hand_side ls)).
+  { unfold lower_id_to_left_hand_side. rewrite !map_map. apply map_ext. intros x.
+    cbn [relabel id_l id_r cms]. rewrite Hlt. destruct (Nat.ltb (id_l x) (id_r x)); reflexivity. }
+  assert (L3 : forall y,
+             flat_map (fun l => map (fun r => relabel phi y) (filter (Nat.eqb (id_r (relabel phi y))) (map phi recs)))
+                      (filter (Nat.eqb (id_l (relabel phi y))) (map phi recs))
+             = map (relabel phi)
+                   (flat_map (fun l => map (fun r => y) (filter (Nat.eqb (id_r y)) recs)) (filter (Nat.eqb (id_l y)) recs))).
+  { intros y. cbn [relabel id_l id_r]. rewrite !filter_eqb_map by exact Hinj.
+    generalize (filter (Nat.eqb (id_l y)) recs) as fl. generalize (filter (Nat.eqb (id_r y)) recs) as fr.
+    intros fr fl. induction fl as [|a fl IHl]; [reflexivity|]. cbn [map flat_map]. rewrite map_app, IHl. f_equal.
+    rewrite !map_map. reflexivity. }
+  assert (Hb : block_from_labels (map phi recs) (map (relabel phi) ls) = map (relabel phi) (block_from_labels recs ls)).
+  { unfold block_from_labels. rewrite L1. generalize (lower_id_to_left_hand_side ls) as ys. intros ys.
+    induction ys as [|y t IH]; [reflexivity|]. cbn [map flat_map]. rewrite map_app, <- IH. f_equal. apply L3. }
+  rewrite Hb, map_map. apply map_ext. intros x. cbn [relabel id_l id_r cms]. rewrite Hs, Hf. reflexivity.
+Qed.
